@@ -126,6 +126,84 @@ Proof.
     destruct Hj as [Hs|[Hs _]]; [exact (r_satE A m _ _ Hr Hs)|]. apply (ewq_elects_m A S ZL cfg Hex m); [intros t c; reflexivity|exact Hs]. }
   eapply t_conseq; [| | | |apply (forward_lift cfer_tail cfer_tail_forward)]; try (intros s H; exact H); intros s H; apply ee_jm; exact H.
 Qed.
+
+(* ---- wigm-prf WITH sure-loser batches (wigm-prf-batch): the same argument; Majority.prf_one_seat asks for cf_batch = false ---- *)
+Definition prf_tail : cmd est :=
+    Do (prf_find_batch A cfg) ;;
+    Ite (fun s => nonempty (lv_batch s))
+      (Do (defeat_batch_in_ballot_order A cfg "Defeat sure loser") ;;
+       Ite (fun s => nlen (hopefuls A s) <=? seats_left A cfg s) Break Skip ;;
+       Do (transfer_batch A cfg (is_hopeful A)) ;;
+       Continue)
+      Skip ;;
+    Ite (fun s => nonempty (pendings A s))
+      (Do (transfer_high_surplus A cfg (bt_simple A cfg "surplus") (rew_wigm A)))
+      (Ite (fun s => nonempty (hopefuls A s)) (Do (defeat_low A cfg (bt_simple A cfg "defeat") "Defeat")) Skip).
+
+Lemma prf_tail_forward (x : est) : ND A x -> T3 (Forward.R A x) prf_tail (Forward.R A x) (Forward.R A x) (Forward.R A x).
+Proof.
+  intros Hx. pose (nd := fun s (H : Forward.R A x s) => nd_R A x s H Hx). unfold prf_tail.
+  eapply t_seq with (M := fun s => Forward.R A x s /\ BatchH A s).
+  { apply t_do. intros s Hs. split; [apply f_batch; exact Hs|apply prf_find_batch_H; exact (nd s Hs)]. }
+  eapply t_seq with (M := Forward.R A x).
+  { apply t_ite.
+    - eapply t_seq with (M := Forward.R A x).
+      { apply t_do. intros s [[Hs HB] _]. apply f_defeat_batch_order; assumption. }
+      eapply t_seq with (M := Forward.R A x); [apply t_ite; [apply t_break'; intros s [H _]; exact H|apply t_skip'; intros s [H _]; exact H]|].
+      eapply t_seq with (M := Forward.R A x); [apply t_do; intros s Hs; apply f_transfer_batch, Hs|].
+      apply t_continue'. auto.
+    - apply t_skip'. intros s [[H _] _]. exact H. }
+  apply t_ite.
+  - apply t_do. intros s [Hs _]. apply f_transfer_high; [apply bt_simple_ok|exact Hs|exact (nd s Hs)].
+  - apply t_ite; [|apply t_skip'; intros s [[H _] _]; exact H].
+    apply t_do. intros s [[Hs _] _]. apply f_defeat_low; [apply bt_simple_ok|exact Hs|exact (nd s Hs)].
+Qed.
+
+Definition PL (s : est) : Prop :=
+  NoDup (map (@cid A) (cands s)) /\ ExM s /\ (SatE s \/ (SatHQ s /\ eln A s = 0%nat /\ guard_main A cfg s = false)).
+
+Lemma prf_one_seat_any (Qb Qc : est -> Prop) q : droop_quota_eps A cfg = Ok q -> 0 <= R q ->
+  T3 (fun s => Pre A S ZL B s /\ (forall c, In c (cands s) -> cst c <> Elected) /\ HopM A m s /\ R q <= stand A S ZL (ballots s) m)
+     (wigm_prf A cfg) SatE Qb Qc.
+Proof.
+  intros Eq Hq. unfold wigm_prf. rewrite Eq.
+  eapply t_seq with (M := JM).
+  { apply t_do_nc. intros s (P & Hne & Hm & Hst) Hc. destruct (begin_hq A S ZL cfg m B q TBegin "Begin Count" s P Hne Hm Hq Hst Hc) as (H1 & H2 & H3 & H4).
+    split; [exact H1|split; [exact H4|right; split; assumption]]. }
+  eapply t_seq with (M := PL).
+  { eapply t_post; [|apply (t_while est (@crashed A) JM EE)].
+    - intros s [(H1 & H2 & H3)|[(H1 & H2 & Hj) Hg]]; (split; [exact H1|split; [exact H2|]]); [left; exact H3|].
+      destruct Hj as [Hs|[Hs He0]]; [left; exact Hs|right; split; [exact Hs|split; assumption]].
+    - eapply t_seq with (M := JM).
+      { apply t_do. intros s [(Hnd & He & Hj) _]. pose proof (f_new_round A cfg s s (R_refl A s)) as Hr.
+        split; [exact (nd_R A _ _ Hr Hnd)|split; [unfold Majority.ExM; rewrite <- (R_cids A _ _ Hr); exact He|]].
+        destruct Hj as [Hs|[Hs He0]]; [left; exact (r_satE A m _ _ Hr Hs)|right]. unfold new_round. split.
+        - intros c Hc Em. rewrite (cands_log A cfg) in Hc. rewrite (quota_log' A cfg). exact (Hs c Hc Em).
+        - unfold eln. rewrite (cands_log A cfg). exact He0. }
+      eapply t_seq with (M := EE).
+      { apply t_do. intros s (Hnd & He & Hj). pose proof (f_elect_with_quota A cfg s (ge_quota A) (fun _ _ => true) None (fun _ => true) s (R_refl A s) Hnd) as Hr.
+        split; [exact (nd_R A _ _ Hr Hnd)|split; [unfold Majority.ExM; rewrite <- (R_cids A _ _ Hr); exact He|]].
+        destruct Hj as [Hs|[Hs _]]; [exact (r_satE A m _ _ Hr Hs)|]. apply (ewq_elects_m A S ZL cfg Hex m); [intros t c; reflexivity|exact Hs]. }
+      eapply t_conseq; [| | | |apply (forward_lift prf_tail prf_tail_forward)]; try (intros s H; exact H); intros s H; apply ee_jm; exact H. }
+  eapply t_seq with (M := PL).
+  { apply t_do. intros s (Hnd & He & Hj). destruct Hj as [Hs|(Hs & He0 & Hg)].
+    - destruct (ee_R s (unpend_all A cfg s) (f_unpend_all A cfg s s (R_refl A s) Hnd) (conj Hnd (conj He Hs))) as (H1 & H2 & H3).
+      split; [exact H1|split; [exact H2|left; exact H3]].
+    - unfold unpend_all. rewrite (pendings_nil A Hex s He0). cbn [fold_left]. split; [exact Hnd|split; [exact He|right; split; [exact Hs|split; assumption]]]. }
+  apply t_do. intros s (Hnd & He & Hj). destruct Hj as [Hs|(Hs & He0 & Hg)].
+  - exact (r_satE A m _ _ (f_elect_or_defeat A cfg s s (R_refl A s) Hnd) Hs).
+  - unfold Majority.ExM in He. apply in_map_iff in He. destruct He as (cm & Eid & Hcm). destruct (Hs cm Hcm Eid) as [Hh _].
+    assert (Hin: In cm (hopefuls A s)) by (unfold hopefuls; apply filter_In; split; [exact Hcm|unfold in_state; rewrite Hh; reflexivity]).
+    assert (Hlen: List.length (hopefuls A s) = 1%nat).
+    { unfold guard_main, seats_left in Hg. rewrite (nlen_electeds A), He0, Hseat in Hg. cbn in Hg. rewrite andb_true_r in Hg. apply Z.ltb_ge in Hg.
+      unfold nlen in Hg. destruct (hopefuls A s) as [|x0 [|y l]]; [contradiction|reflexivity|cbn [List.length] in Hg; lia]. }
+    unfold elect_or_defeat_remaining. destruct (hopefuls A s) as [|x0 [|y l]]; try discriminate. destruct Hin as [->|[]]. cbn [fold_left].
+    rewrite (nlen_electeds A), He0, Hseat. cbn [Z.of_nat Z.ltb Z.compare]. cbv iota.
+    intros c' Hc' Em. unfold elect in Hc'. destruct (find_cand A (cands s) (cid cm)) as [c0|] eqn:Ef.
+    + rewrite (cands_log A cfg) in Hc'. unfold upd in Hc'. cbn [cands set_cands] in Hc'. destruct (in_upd_cand A _ _ _ c' Hc') as (c1 & Hc1 & ->).
+      destruct (Z.eqb (cid c1) (cid cm)) eqn:E; [reflexivity|]. exfalso. cbn [cid] in Em. apply Z.eqb_neq in E. congruence.
+    + exfalso. destruct (find_cand_in A (cands s) (cid cm)) as [y Hy]; [apply in_map; exact Hcm|congruence].
+Qed.
 End MC.
 
 Section MCCount.
@@ -162,6 +240,39 @@ Proof.
         assert (Hp: S * (ballot_total pr + 1) <= S * (2 * first_prefs pr m)) by (apply Z.mul_le_mono_nonneg_l; lia).
         lia.
     - eapply t_seq with (M := SatE A m); [cbn [rule_cmd]; apply (cfer_one_seat A S ZL cfg Hex m (S * ballot_total pr) Hseat _ _ q Eq)|].
+      + rewrite Rq. pose proof (S_pos A S ZL).
+        assert (Hbt: 0 <= ballot_total pr).
+        { unfold ballot_total. clear -Hwf. destruct Hwf as [_ Hb]. induction (pr_ballots pr) as [|[mu r] l IH]; cbn [fold_right fst snd]; [lia|].
+          assert (0 <= fold_right (fun mr acc => match snd mr with [] => 0 | _ :: _ => fst mr end + acc) 0 l) by (apply IH; intros m' r' H'; apply Hb; right; exact H').
+          destruct (Hb mu r (or_introl eq_refl)) as [Hm _]. destruct r; lia. }
+        assert (0 <= ballot_total pr * S / (1 + 1)) by (apply Z.div_pos; nia). lia.
+      + apply t_do. intros s0 Hs c Hc Em. rewrite (Status.cands_log A cfg) in Hc. exact (Hs c Hc Em). }
+  specialize (Ht fuel _ s k eq_refl He). destruct k; try contradiction. exact Ht.
+Qed.
+
+(* wigm-prf and wigm-prf-batch alike *)
+Theorem count_majority_prf_any (pr : profile) m fuel s k : wf_profile pr -> cf_nballots cfg = ballot_total pr ->
+  (exists pc, In pc (pr_cands pr) /\ pc_cid pc = m /\ pc_withdrawn pc = false) ->
+  ballot_total pr < 2 * first_prefs pr m ->
+  exec (@crashed A) fuel (count_cmd A cfg RWigmPrf) (init_state A cfg pr) = Some (s, k) -> k <> Abort ->
+  forall c, In c (cands s) -> cid c = m -> cst c = Elected.
+Proof.
+  intros Hwf Hnbt (pc & Hpc & Epc & Hwd) Hmaj He Hk.
+  assert (Hns: 0 <= cf_nseats cfg) by (rewrite Hseat; lia).
+  destruct (droop_quota_eps_value A S ZL cfg Hns Heps) as (q & Eq & Rq). rewrite Hseat, Hnbt in Rq.
+  assert (Ht: triple (est A) (@crashed A) (fun s0 => s0 = init_state A cfg pr) (count_cmd A cfg RWigmPrf)
+            (SatE A m) (fun _ => False) (fun _ => False)).
+  { unfold count_cmd. eapply t_seq with (M := fun s0 => Pre A S ZL (S * ballot_total pr) s0 /\ (forall c, In c (cands s0) -> cst c <> Elected) /\ HopM A m s0 /\
+                                                       R q <= stand A S ZL (ballots s0) m).
+    - apply t_do. intros s0 ->. destruct (pre2_init A S ZL cfg Hex pr Hwf) as [P Hne]. destruct (init_state_shape A cfg pr) as (Ec & Eb & _).
+      split; [exact P|split; [exact Hne|split]].
+      + exists (with_vote (init_cand A pc) (V0' A)). split; [|split; [exact Epc|cbn [cst with_vote init_cand]; rewrite Hwd; reflexivity]].
+        unfold zero_votes. cbn [cands set_cands]. rewrite Ec, map_map. apply in_map_iff. exists pc. split; [reflexivity|exact Hpc].
+      + unfold zero_votes. cbn [ballots set_cands]. rewrite Eb, (stand_mk A S ZL Hex pr m Hwf), Rq. pose proof (S_pos A S ZL) as HS.
+        assert (Hd: 2 * (ballot_total pr * S / (1 + 1)) <= ballot_total pr * S) by (apply (Z.mul_div_le (ballot_total pr * S) 2); lia).
+        assert (Hp: S * (ballot_total pr + 1) <= S * (2 * first_prefs pr m)) by (apply Z.mul_le_mono_nonneg_l; lia).
+        lia.
+    - eapply t_seq with (M := SatE A m); [cbn [rule_cmd]; apply (prf_one_seat_any A S ZL cfg Hex m (S * ballot_total pr) Hseat _ _ q Eq)|].
       + rewrite Rq. pose proof (S_pos A S ZL).
         assert (Hbt: 0 <= ballot_total pr).
         { unfold ballot_total. clear -Hwf. destruct Hwf as [_ Hb]. induction (pr_ballots pr) as [|[mu r] l IH]; cbn [fold_right fst snd]; [lia|].
